@@ -1,18 +1,23 @@
-(* PyEqFacts.v — equal() is Python's ==, and hash respects equal (C07).
-   Part 1: keys without float / complex components (exact integer arithmetic only). *)
+(* PyEqFacts.v — equal() is Python's ==, and hash respects equal (C07), for every hashable key:
+   integers of every Go type, *big.Int, bool, float64 / float32 (widened), complex, the three
+   string kinds, Tuples, None, Class, Call, Ref.  The float facts are in FloatFacts.v. *)
 From Coq Require Import Ascii String.
 From Coq Require Import List ZArith NArith Bool Lia.
 From Coq.Strings Require Import Byte.
-From OgRek Require Import Base Float Value PyEq BaseFacts.
+From OgRek Require Import Base Float Value PyEq BaseFacts FloatFacts.
 Import ListNotations.
 Open Scope N_scope.
 
-(* hashable keys whose numbers are all integers (of any Go integer type, or *big.Int) *)
+(* the hashable keys (well-formed: Go integers in their type's range, floats as 64-bit patterns).
+   The name is historical: the predicate once excluded floats. *)
+Definition wfb (f : N) : bool := (f <? 18446744073709551616)%N.
 Fixpoint nf_key (v : val) : bool :=
   match v with
   | VNone | VBool _ | VStr _ | VBStr _ | VBytes _ | VClass _ _ | VUser _ | VBig _ _ => true
   | VInt z => in_int64 z
   | VUint z => in_uint64 z
+  | VFloat f => wfb f
+  | VComplex re im => wfb re && wfb im
   | VTuple l => forallb nf_key l
   | VCall _ _ l => forallb nf_key l
   | VRef p => nf_key p
@@ -51,18 +56,85 @@ Ltac zcases :=
 Lemma bint_range : forall b, (0 <= bint b <= 1)%Z.
 Proof. destruct b; cbn; lia. Qed.
 
+(* ---- numbers: the eq_* matrix against exact values ------------------------------------------ *)
+
+Definition is_num (v : val) : bool :=
+  match v with VBool _ | VInt _ | VUint _ | VFloat _ | VComplex _ _ | VBig _ _ => true | _ => false end.
+
+Lemma py_eq_num : forall a b, is_num a = true -> is_num b = true ->
+  py_eq a b = match pynum_of a, pynum_of b with
+              | Some (r1, i1), Some (r2, i2) => rnum_eqb r1 r2 && rnum_eqb i1 i2
+              | _, _ => false
+              end.
+Proof. intros a b Ha Hb. destruct a; try discriminate Ha; destruct b; try discriminate Hb; reflexivity. Qed.
+
+Lemma py_eq_num_sym : forall a b, is_num a = true -> is_num b = true -> py_eq a b = py_eq b a.
+Proof.
+  intros a b Ha Hb. rewrite (py_eq_num a b Ha Hb), (py_eq_num b a Hb Ha).
+  destruct (pynum_of a) as [[r1 i1]|]; destruct (pynum_of b) as [[r2 i2]|]; try reflexivity.
+  rewrite (rnum_eqb_sym r1 r2), (rnum_eqb_sym i1 i2). reflexivity.
+Qed.
+
+Lemma in_int64_bint : forall b, in_int64 (bint b) = true.
+Proof. destruct b; reflexivity. Qed.
+
+Lemma rnum_zero_refl : rnum_eqb (RFin 0 0) (RFin 0 0) = true.
+Proof. reflexivity. Qed.
+
+Ltac wf_hyps :=
+  repeat match goal with
+  | H : (_ && _) = true |- _ => apply andb_true_iff in H; destruct H
+  | H : wfb _ = true |- _ => apply wf_float_b in H
+  end.
+
+Lemma eq_num_ordered_py : forall a b, is_num a = true -> is_num b = true ->
+  nf_key a = true -> nf_key b = true ->
+  (kind_rank (kind_of a) <=? kind_rank (kind_of b))%N = true ->
+  eq_num_ordered a b = py_eq a b.
+Proof.
+  intros a b Na Nb Ha Hb R. rewrite (py_eq_num a b Na Nb).
+  destruct a; try discriminate Na; destruct b; try discriminate Nb; try discriminate R;
+    cbn [nf_key] in Ha, Hb; cbn [eq_num_ordered pynum_of]; rewrite ?rnum_zero_refl, ?andb_true_r.
+  (* integer / integer pairs *)
+  all: try (rewrite ?rnum_eqb_int;
+            unfold eq_Int_Uint, eq_Int_BigInt, eq_Uint_BigInt, in_int64, in_uint64, int64_min, int64_max, uint64_max in *;
+            bool_hyps; repeat match goal with b : bool |- _ => destruct b end; cbn [bint]; zcases; fail).
+  all: wf_hyps.
+  - (* bool, float *) apply eq_int_float_value. apply in_int64_bint.
+  - (* bool, complex *) unfold eq_Int_Complex. rewrite eq_int_float_value by apply in_int64_bint.
+    rewrite f_zero_value by assumption. rewrite (rnum_eqb_sym (RFin 0 0)). apply andb_comm.
+  - (* int, float *) apply eq_int_float_value. exact Ha.
+  - (* int, complex *) unfold eq_Int_Complex. rewrite eq_int_float_value by exact Ha.
+    rewrite f_zero_value by assumption. rewrite (rnum_eqb_sym (RFin 0 0)). apply andb_comm.
+  - (* uint, float *) apply eq_uint_float_value. exact Ha.
+  - (* uint, complex *) unfold eq_Uint_Complex. rewrite eq_uint_float_value by exact Ha.
+    rewrite f_zero_value by assumption. rewrite (rnum_eqb_sym (RFin 0 0)). apply andb_comm.
+  - (* float, big *) apply eq_float_big_value. assumption.
+  - (* float, float *) apply f_eq_value; assumption.
+  - (* float, complex *) unfold eq_Float_Complex. rewrite f_eq_value by assumption.
+    rewrite f_zero_value by assumption. rewrite (rnum_eqb_sym (RFin 0 0)). reflexivity.
+  - (* complex, big *) unfold eq_Complex_BigInt. rewrite eq_float_big_value by assumption.
+    rewrite f_zero_value by assumption. apply andb_comm.
+  - (* complex, complex *) rewrite !f_eq_value by assumption. reflexivity.
+Qed.
+
+Lemma eq_num_py : forall a b, is_num a = true -> is_num b = true ->
+  nf_key a = true -> nf_key b = true -> eq_num a b = py_eq a b.
+Proof.
+  intros a b Na Nb Ha Hb. unfold eq_num.
+  assert (S : is_stringish b = false) by (destruct b; try discriminate Nb; reflexivity). rewrite S.
+  destruct (N.leb_spec (kind_rank (kind_of a)) (kind_rank (kind_of b))) as [L|L].
+  - apply eq_num_ordered_py; try assumption. apply N.leb_le. exact L.
+  - rewrite (py_eq_num_sym a b Na Nb). apply eq_num_ordered_py; try assumption. apply N.leb_le. lia.
+Qed.
+
 Theorem go_equal_py_eq_nf : forall a b,
   nf_key a = true -> nf_key b = true -> go_equal a b = py_eq a b.
 Proof.
   induction a using val_ind'; intros b0 Ha Hb; cbn in Ha; try discriminate;
     destruct b0; cbn in Hb; try discriminate; cbn [go_equal py_eq slice_items];
     try reflexivity;
-    try (cbn; rewrite ?rnum_eqb_int, ?andb_true_r;
-         unfold eq_Int_Uint, eq_Int_BigInt, eq_Uint_BigInt, in_int64, in_uint64,
-                int64_min, int64_max, uint64_max;
-         bool_hyps;
-         repeat match goal with b : bool |- _ => destruct b end; cbn [bint];
-         zcases).
+    try (apply eq_num_py; [reflexivity|reflexivity|first [reflexivity|exact Ha]|first [reflexivity|exact Hb]]).
   - (* Tuple / Tuple *)
     apply (all2_ext nf_key); assumption.
   - (* Call / Call *)
@@ -125,6 +197,61 @@ Ltac agree_small :=
   cbn [go_hash]; eexists; eexists; split; [reflexivity|split; [reflexivity|]];
   apply u64_agree; congruence.
 
+(* ---- numbers with a float or complex part ------------------------------------------------------ *)
+
+Definition is_fl (v : val) : bool := match v with VFloat _ | VComplex _ _ => true | _ => false end.
+
+Lemma num_hash_self : forall a, is_num a = true -> exists h, go_hash a = Some h /\ hin_eqb h h = true.
+Proof.
+  intros a H. destruct a; try discriminate H; cbn [go_hash].
+  all: try (eexists; split; [reflexivity|cbn [hin_eqb all2]; rewrite ?bytes_eqb_refl; reflexivity]).
+  - destruct (in_int64 z || in_uint64 z); [|destruct (Z_to_f64_exact z)];
+      (eexists; split; [reflexivity|cbn [hin_eqb all2]; rewrite ?bytes_eqb_refl; reflexivity]).
+  - destruct (f_is_zero_eq im); (eexists; split; [reflexivity|cbn [hin_eqb all2]; rewrite ?bytes_eqb_refl; reflexivity]).
+Qed.
+
+Lemma hash_eq_agree : forall a b, is_num a = true -> go_hash a = go_hash b -> hash_agree a b.
+Proof.
+  intros a b Na E. destruct (num_hash_self a Na) as [h [H1 H2]]. exists h, h. split; [exact H1|]. split; [rewrite <- E; exact H1|exact H2].
+Qed.
+
+Lemma hash_num_ordered_eq : forall a b, is_num a = true -> is_num b = true -> is_fl a || is_fl b = true ->
+  (kind_rank (kind_of a) <=? kind_rank (kind_of b))%N = true ->
+  eq_num_ordered a b = true -> go_hash a = go_hash b.
+Proof.
+  intros a b Na Nb Fl R E.
+  destruct a; try discriminate Na; destruct b; try discriminate Nb; try discriminate R; try discriminate Fl;
+    cbn [eq_num_ordered] in E; cbn [go_hash].
+  - (* bool, float *) rewrite (hash_int_float _ _ E). reflexivity.
+  - (* bool, complex *) unfold eq_Int_Complex in E. apply andb_true_iff in E. destruct E as [Z0 E].
+    rewrite Z0, (hash_int_float _ _ E). reflexivity.
+  - (* int, float *) rewrite (hash_int_float _ _ E). reflexivity.
+  - (* int, complex *) unfold eq_Int_Complex in E. apply andb_true_iff in E. destruct E as [Z0 E].
+    rewrite Z0, (hash_int_float _ _ E). reflexivity.
+  - (* uint, float *) rewrite (hash_uint_float _ _ E). reflexivity.
+  - (* uint, complex *) unfold eq_Uint_Complex in E. apply andb_true_iff in E. destruct E as [Z0 E].
+    rewrite Z0, (hash_uint_float _ _ E). reflexivity.
+  - (* float, big *) apply (hash_float_big _ id _ E).
+  - (* float, float *) rewrite (hash_float_eq _ _ E). reflexivity.
+  - (* float, complex *) unfold eq_Float_Complex in E. apply andb_true_iff in E. destruct E as [E Z0].
+    rewrite Z0, (hash_float_eq _ _ E). reflexivity.
+  - (* complex, big *) unfold eq_Complex_BigInt in E. apply andb_true_iff in E. destruct E as [Z0 E].
+    rewrite Z0. apply (hash_float_big _ id _ E).
+  - (* complex, complex *) apply andb_true_iff in E. destruct E as [E1 E2].
+    rewrite (hash_float_eq _ _ E1), (f_zero_eq_congr _ _ E2), (hash_float_eq _ _ E2). reflexivity.
+Qed.
+
+Lemma hash_num_float : forall a b, is_num a = true -> is_num b = true -> is_fl a || is_fl b = true ->
+  eq_num a b = true -> hash_agree a b.
+Proof.
+  intros a b Na Nb Fl E. unfold eq_num in E.
+  assert (S : is_stringish b = false) by (destruct b; try discriminate Nb; reflexivity). rewrite S in E.
+  apply hash_eq_agree; [exact Na|].
+  destruct (N.leb_spec (kind_rank (kind_of a)) (kind_rank (kind_of b))) as [L|L].
+  - apply hash_num_ordered_eq; try assumption. apply N.leb_le. exact L.
+  - symmetry. apply hash_num_ordered_eq; try assumption; [rewrite orb_comm; exact Fl|apply N.leb_le; lia].
+Qed.
+
 Theorem hash_respects_equal_nf : forall a b,
   nf_key a = true -> nf_key b = true -> go_equal a b = true -> hash_agree a b.
 Proof.
@@ -132,6 +259,7 @@ Proof.
     destruct b0; cbn in Hb; try discriminate; cbn [go_equal slice_items] in E; try discriminate.
   all: try (cbn in E; apply bytes_eqb_eq in E; subst; solve_agree).
   all: try solve_agree.
+  all: try (apply hash_num_float; [reflexivity|reflexivity|reflexivity|exact E]).
   all: try (cbn in E; unfold eq_Int_Uint, eq_Int_BigInt, eq_Uint_BigInt in E;
             repeat match goal with
             | H : (_ && _) = true |- _ => apply andb_true_iff in H; destruct H
@@ -185,7 +313,8 @@ Qed.
 Theorem py_eq_sym_nf : forall a b, nf_key a = true -> nf_key b = true -> py_eq a b = py_eq b a.
 Proof.
   induction a using val_ind'; intros b0 Ha Hb; cbn in Ha; try discriminate;
-    destruct b0; cbn in Hb; try discriminate; cbn [py_eq];
+    destruct b0; cbn in Hb; try discriminate;
+    try (apply py_eq_num_sym; reflexivity); cbn [py_eq];
     try reflexivity; try apply bytes_eqb_sym;
     try (cbn; rewrite ?rnum_eqb_int, ?andb_true_r; apply Z.eqb_sym).
   - apply (all2_sym_ext nf_key); assumption.
